@@ -176,7 +176,8 @@ for _a in ('inblock', 'absent'):
               'check_confirmations(cur): penalty %s the block, tracker %s, recorded %s(h): confirmed only when seen in a block; complete iff not reorged and cur - h == 100; reorged marks kept until re-confirmation' % (
                   'in' if _a == 'inblock' else 'not in', 'marked reorged' if _b == 'reorged' else 'not reorged', 'ConfirmedIn' if _c == 'confirmed' else 'InMempoolSince'),
               'quick' if (_a, _b, _c) in (('inblock', 'reorged', 'confirmed'), ('absent', 'fresh', 'confirmed'), ('absent', 'reorged', 'confirmed'), ('inblock', 'fresh', 'mempool')) else 'thorough')
-K('C04', 'P2.block_disconnected', 'teos', _r + 'c04_p2_block_disconnected', 'block_disconnected(height): exactly the trackers ConfirmedIn(height) join the reorged set; block leaves the index; carrier follows; no status changes; nothing sent')
+for _n, _t in (('confirmed_here', 'quick'), ('confirmed_elsewhere', 'quick'), ('unconfirmed', 'thorough')):
+    K('C04', 'P2.block_disconnected.' + _n, 'teos', _r + 'c04_p2_disconnect_' + _n, 'block_disconnected(height), tracker %s: exactly the trackers ConfirmedIn(height) join the reorged set (earlier marks kept); block leaves the index; carrier follows; no status changes; nothing sent' % _n.replace('_', ' '), _t)
 K('C04', 'P3.handle_reorged', 'teos', _r + 'c04_p3_handle_reorged', 'handle_reorged_txs: dispute re-announced first, penalty only if the dispute was not refused; not refused => InMempoolSince(height); refused => reported; bystanders untouched')
 K('C04', 'P4.rebroadcast_threshold', 'teos', _r + 'c04_p4_rebroadcast_threshold', 'rebroadcast_stale_txs(height) selects InMempoolSince(height - 6) for every height >= 6')
 K('C04', 'P4.rebroadcast_fresh', 'teos', _r + 'c04_p4_rebroadcast_fresh_boundary', 'a penalty unconfirmed for 5 blocks and a confirmed tracker are not re-submitted')
@@ -341,8 +342,8 @@ PROPS['C08'] = {
     'harness_timeout': {'quick': 900, 'thorough': 1800},
     'obligations': [],
 }
-K('C08', 'K1.appointment_receipt_layout', 'teos-common', _c + 'c08_k1_appointment_receipt_layout', 'AppointmentReceipt::to_vec = user_signature || start_block(BE): determines both fields')
-K('C08', 'K1.appointment_layout', 'teos-common', _c + 'c08_k1_appointment_layout', 'Appointment::to_vec = locator(16) || blob || to_self_delay(BE)')
+K('C08', 'K1.appointment_receipt_layout', 'teos-common', 'verif_harness::' + 'c08_k1_appointment_receipt_layout', 'AppointmentReceipt::to_vec = user_signature || start_block(BE): determines both fields')
+K('C08', 'K1.appointment_layout', 'teos-common', 'verif_harness::' + 'c08_k1_appointment_layout', 'Appointment::to_vec = locator(16) || blob || to_self_delay(BE)')
 K('C08', 'K2.registration_receipt', 'teos', _g + 'c09_k5_register_new', 'registration receipt fields == UserInfo in memory == database row')
 K('C08', 'K2.renewal_receipt', 'teos', _g + 'c09_k5_renew', 'renewal receipt fields == UserInfo in memory == database row')
 K('C08', 'P2.add_new', 'teos', _w + 'c08_add_new', 'accepted new appointment: receipt = (user signature, tower height), tower signs exactly those bytes, returned slots/expiry are the persisted ones, the stored row is the accepted version')
@@ -356,3 +357,8 @@ K('C11', 'K1.late_already_in_chain', 'teos', _w + 'c11_late_already_in_chain', '
 K('C11', 'K1.handle_breach_panic_free', 'teos', _r + 'c01_p3_handle_breach_not_in_index', 'no unwrap/overflow/index panic in handle_breach for any node reply')
 K('C11', 'K1.check_confirmations_panic_free', 'teos', _r + 'c04_p1_cc_absent_fresh_confirmed', 'no panic (incl. current_height - h) in check_confirmations under the stated invariant')
 K('C11', 'K1.gatekeeper_panic_free', 'teos', _g + 'c07_k4_delete_refund_two', 'no panic in delete_appointments(refund) for rows that exist', 'thorough')
+K('C01', 'P4.late_penalty_confirmed', 'teos', _w + 'c01_late_penalty_confirmed', 'late appointment whose penalty is already in the responder\'s recent-block index: ConfirmedIn(true height), nothing sent, appointment kept with its tracker')
+K('C01', 'P2.handle_breaches_shared_locator', 'teos', _w + 'c01_p2_handle_breaches_shared_locator', 'block path, one breached locator shared by two users (one good blob, one garbled): each blob decrypted on its own, the good one answered with its own penalty and owner, only the garbled one reported invalid')
+K('C06', 'P4.isolation_shared_locator', 'teos', _w + 'c01_p2_handle_breaches_shared_locator', 'users sharing a locator hold independent appointments when the breach arrives: own blob, own tracker, own fate')
+PROPS['C01']['outside'] = PROPS['C01']['outside'].replace('the block-connection path Watcher::filtered_block_connected -> get_breaches -> handle_breaches is not run under Kani (its loop over breaches runs out of memory): only its lock/call order is checked (C10.M1, C11.M1) and its per-breach step is the same handle_breach',
+    'of the block-connection path, Watcher::handle_breaches is run for one breached locator with two appointments; filtered_block_connected / get_breaches themselves (locator map construction, cache update, deletion of the invalid ones) are only covered through lock/call order (C10.M1, C11.M1)')
